@@ -17,6 +17,8 @@ CLAIM = (
     "call the visitor/transformer method whose name is built with the same template as in the six visitor/transformer generators, and "
     "each of those generators emits one method per element of symbol_table.concrete_classes; (5) ACCESSOR: over_X_or_empty is generated "
     "for exactly the Optional list properties the class specifies itself, yields from the property under `is not None`."
+    " SKIPS: the loops of the functions in scope have no more `continue`, `break` or in-loop `return` statements than the reference "
+    "read on the unchanged tree (baselines/skips.json): a new skip means elements that were handled are no longer handled."
 )
 NOTE = (
     "Not decided: the traversal results on instance graphs (execution of the generated code). `X or default` accessors do not exist in the "
@@ -144,3 +146,11 @@ def run(ctx) -> None:
             ctx.fail("ACCESSOR", gcls, j, "the accessor body does not `yield from self.X` under `is not None`", construct="over_X_or_empty body")
     for f in p.module(f"{PKG}.{M}").functions.values():
         exh.check_exh1(ctx, f, "EXH1")
+
+    ctx.rule("SKIPS", "the loops of the functions in scope have no more continue/break/return-in-loop statements than the reference read on the unchanged tree", floor=3)
+    from ..rules import skips as _skips
+    _base = _skips.load_baseline()
+    for _m in ctx.p.modules.values():
+        if _m.name in ("aas_core_codegen.python.lib._generate_types", "aas_core_codegen.python.unrolling"):
+            for _f in _m.functions.values():
+                _skips.check_skips(ctx, _f, "SKIPS", _base)
